@@ -12,8 +12,16 @@ No open finding.  Recorded here:
    and `join_adjacent_string_literals` copied 4 bytes into a 3-byte buffer.
  * (not modelled, kept as a regression program in corpus/C11/001-wchar-header.c: include/stddef.h
    declared `wchar_t` as `unsigned int` while `L'x'` has type `int`.)
+ * the statement `C11_text_transparent` was first written down with weaker hypotheses
+   (`C11_text_transparent_Statement`, kept below as `TransparentAsFirstStated`); it is false.  The three
+   minimal counterexamples (each reproduced on the real tokenizer through the in-process harness, and replayed
+   by the `file` operations of checklib/C11.py on every run) are the reason for the hypotheses
+   `LiteralOnFirstLine` and "not inside/in front of a BOM" of the proved theorem.  None of them is a defect
+   with respect to C11: a character constant that contains a new-line is undefined (6.4.4.4), a BOM is not part
+   of the standard's source character set, `\u005c` is a constraint violation (6.4.3p2).
 -/
 import ChibiVerif.Model.Literals
+import ChibiVerif.Model.Text
 
 namespace ChibiVerif.Findings.C11
 open ChibiVerif.Gen.Literals
@@ -61,5 +69,46 @@ theorem C11_tokens_read :
 theorem C11_fixed_u8_kind_witness :
     (getStringKindOld tokU8a >>= fun k => resolveKindOld k tokU8a.elem [tokUb]) = .ok (.utf16, .ty_char) ∧
     joinStrings [tokU8a, tokUb] = .error .nonStandardConcat := by decide
+
+-- ------------------------------------------------------------------ splice transparency as first stated is false
+
+open ChibiVerif.Text in
+/-- `C11_text_transparent_Statement` as it stood while it was open -/
+def TransparentAsFirstStated : Prop :=
+  ∀ (a b : List Byte), BSL ∉ a → CR ∉ a → CR ∉ b → 0#8 ∉ a → 0#8 ∉ b →
+    lexLiteral (phase12 (a ++ BSL :: LF :: b)) = lexLiteral (phase12 (a ++ b))
+
+open ChibiVerif.Text in
+/-- **counterexample 1** (minimal: 3 bytes): `'` / newline `'`.  `read_char_literal` closes the constant with `strchr`,
+    which runs over newlines; `remove_backslash_newline` re-inserts the deleted newline after the next one, so the token
+    (value 10 in both cases) is one byte longer. -/
+theorem C11_splice_witness_char :
+    lexLiteral (phase12 ([39#8] ++ BSL :: LF :: [10#8, 39#8])) = .ok (.chr 10#64 .ty_int 4) ∧
+    lexLiteral (phase12 ([39#8] ++ [10#8, 39#8])) = .ok (.chr 10#64 .ty_int 3) := by decide
+
+open ChibiVerif.Text in
+/-- **counterexample 2**: a splice in front of (or inside) a UTF-8 BOM: `tokenize_file` tests for the BOM before it
+    removes splices, so the BOM is not skipped and the text no longer starts with the literal `1`. -/
+theorem C11_splice_witness_bom :
+    lexLiteral (phase12 ([] ++ BSL :: LF :: [0xEF#8, 0xBB#8, 0xBF#8, 0x31#8])) = .error .notALiteral ∧
+    lexLiteral (phase12 ([0xEF#8, 0xBB#8] ++ BSL :: LF :: [0xBF#8, 0x31#8])) = .error .notALiteral ∧
+    lexLiteral (phase12 ([] ++ [0xEF#8, 0xBB#8, 0xBF#8, 0x31#8])) = .ok (.int 1#64 .ty_int 1) := by decide
+
+open ChibiVerif.Text in
+/-- **counterexample 3**: `"\u005c` newline `abc"`: `convert_universal_chars` (which runs after the splices are removed)
+    produces a backslash in front of the newline and `string_literal_end` steps over the pair; with one more splice on
+    the first line the re-inserted newline ends the literal: "unclosed string literal". -/
+theorem C11_splice_witness_ucn_backslash :
+    lexLiteral (phase12 ([0x22#8] ++ BSL :: LF :: [92#8, 0x75#8, 0x30#8, 0x30#8, 0x35#8, 0x63#8, 10#8, 0x61#8, 0x22#8])) =
+      .error .unclosedString ∧
+    lexLiteral (phase12 ([0x22#8] ++ [92#8, 0x75#8, 0x30#8, 0x30#8, 0x35#8, 0x63#8, 10#8, 0x61#8, 0x22#8])) =
+      .ok (.str ⟨.ty_char, [10, 0x61], 5, [0x22#8, 92#8, 10#8, 0x61#8, 0x22#8]⟩) := by decide
+
+/-- the statement as first written is false (witness 1) -/
+theorem C11_text_transparent_as_first_stated_is_false : ¬ TransparentAsFirstStated := by
+  intro h
+  have h1 := h [39#8] [10#8, 39#8] (by decide) (by decide) (by decide) (by decide) (by decide)
+  rw [C11_splice_witness_char.1, C11_splice_witness_char.2] at h1
+  exact absurd h1 (by decide)
 
 end ChibiVerif.Findings.C11
